@@ -89,8 +89,12 @@ def fault_enumeration(ctx, names, oracle_fns, faults=None, latencies=(0.0, 0.3),
             for f in faults:
                 for lat in latencies:
                     for rep in range(1 if ctx.quick else 3):
-                        items.append((prog, {"seed": rng.randrange(1 << 30), "faults": {str(k): f},
-                                             "strategy": "pct" if rep else "random", "max_inv": 14, "api_latency": lat}))
+                        sc = {"seed": rng.randrange(1 << 30), "faults": {str(k): f},
+                              "strategy": "pct" if rep else "random", "max_inv": 14, "api_latency": lat}
+                        items.append((prog, sc))
+                        # the same fault with the batch applied by the backend and only the answer lost
+                        if not ctx.quick or (k + len(items)) % 3 == 0:
+                            items.append((prog, dict(sc, faults_after_apply=[str(k)])))
     ex = run_campaign(ctx, items)
     ctx.notes["fault_positions"] = ctx.notes.get("fault_positions", 0) + len(items)
     for e in ex:
